@@ -366,10 +366,11 @@ var hard8 = []uint32{
 	0xc6cdb2d, 0xb25df35, 0xc72dbba, 0xac9bf6d, 0xcb8cafe, 0xdb8d8fc, 0x759d13b, 0xd8cd4f5, 0x67e26a7, 0x67e5a7d,
 }
 
-// genUndColorHard extends the exact-colouring check to 7 nodes, where the
-// heuristic upper bound is not always optimal: the hard7 list in the quick
-// tier (all id maps and variants), every 7-node graph in the thorough tier
-// (three id map/variant combinations).
+// genUndColorHard extends the exact-colouring check to 7 and 8 nodes, where
+// the heuristic upper bound is not always optimal: the hard7 and hard8 lists
+// under all id maps and variants (hard7 is subsumed in thorough), plus every
+// 7-node graph in the thorough tier (ident/asc; sparse/desc and rev/simple as
+// well when the exact search is entered).
 func genUndColorHard(g *vlib.G) {
 	one := func(n int, mask uint32, all bool) {
 		s := undirectedSpec(n, mask)
@@ -380,8 +381,14 @@ func genUndColorHard(g *vlib.G) {
 			maxPolls, improved, cancelledWithBest := 0, false, false
 			for idk := 0; idk < nIDMaps; idk++ {
 				for v := 0; v < nVariants; v++ {
-					if !all && !(idk == idIdentity && v == vOrdAsc || idk == idSparse && v == vOrdDesc || idk == idReversed && v == vSimple) {
-						continue
+					if !all {
+						// thorough sweep: ident/asc always; two more combinations
+						// only for graphs on which the exact search is entered.
+						first := idk == idIdentity && v == vOrdAsc
+						more := (idk == idSparse && v == vOrdDesc) || (idk == idReversed && v == vSimple)
+						if !first && !(more && maxPolls > 0) {
+							continue
+						}
 					}
 					b := build(&s, idk, v)
 					runSticky(t, "und-color-hard", key, idk, v, func(c *chk) {
